@@ -9,6 +9,7 @@ import (
 	"os"
 	"path/filepath"
 	"sort"
+	"strconv"
 	"strings"
 )
 
@@ -22,6 +23,33 @@ import (
 // and classifies the variable (sync.Pool / atomic.* / sync.Mutex|RWMutex / struct with its own sync.Once / plain) and the write
 // site (inside `func init()`; lexically after a `.Lock()` call in the same function).
 //
+// ESCAPES (round 2).  For every variable additionally
+//
+//	typ      its type as far as the syntax tells (declared type, or the type of the initialiser:
+//	         &T{…}, T{…}, make(T), NewX(…) -> first result type of the package's func NewX)
+//	mutable  whether a holder of (an alias of) the value can change state others see: the type is a
+//	         slice or map, or a (pointer to a) named type of the package that has a method with
+//	         pointer receiver writing a receiver field/element ("mutator"), or a struct type with a
+//	         field of such a type (two levels)
+//	escapes  every function that hands the variable out: `return x` / `return &x` / x inside a
+//	         composite literal, slice expression, append(…) or type assertion that is returned
+//	         (how = returned); x (or a local alias of it: q := x … ) stored into a field or element
+//	         of another object (how = stored); x (or an alias) given as an argument to a call other than a
+//	         builtin (how = passed; `&x` arguments are in the writes table).  Local aliases are followed inside one function,
+//	         flow-insensitively.  A reference `pkg.X` from another of the four packages counts too.  An element
+//	         x[k] of a package-level map / slice counts when the element type is mutable; so does a value taken
+//	         out of a package-level container of another module (sync.Map & co: x.Load(k), x.Get(k)).
+//
+// A plain variable that is mutable AND escapes is ONE object shared by every caller of that function.
+//
+// CLOSURES (round 2).  A second table: every function literal inside a function of the four
+// packages that outlives the call which created it — it is returned, put into a composite literal,
+// stored into a field/element, or assigned to a local that is (returned / put into a literal / stored) —
+// with the variables it captures from the enclosing function (locals, parameters, receiver) and
+// WRITES (assignment, element/field write, ++/--, address taken, delete, range assignment).  Such a
+// variable is allocated once per call of the enclosing constructor and shared by every invocation
+// of the closure (e.g. one buffer per symbol instead of one per evaluation).
+//
 // Identifier resolution uses go/parser's per-file object resolution: an identifier counts as the
 // package variable when it has that name and is either unresolved in its file (declared in another
 // file of the package) or resolves to the package-level declaration itself — a local variable or
@@ -29,7 +57,8 @@ import (
 //
 // Limits (stated in the C18 notes): writes through an alias created elsewhere (p := &x in one
 // function, *p = … in another; a method with pointer receiver called on x) are not seen; function
-// literals used as initialisers of package-level variables are not scanned.
+// literals used as initialisers of package-level variables are not scanned; function literals passed
+// as call arguments (callbacks) are not in the closure table; types from other modules are opaque.
 //
 // Output: lean/StorageModel/Generated/Globals.lean and facts/globals.json.
 type globalWrite struct {
@@ -40,12 +69,41 @@ type globalWrite struct {
 	Pos       string `json:"pos"`
 }
 
+type globalEscape struct {
+	Func string `json:"func"`
+	How  string `json:"how"` // returned | stored | passed
+	Pos  string `json:"pos"`
+}
+
 type globalVar struct {
-	Pkg    string        `json:"pkg"`
-	Name   string        `json:"name"`
-	Kind   string        `json:"kind"`
-	Decl   string        `json:"decl"`
-	Writes []globalWrite `json:"writes"`
+	Pkg        string         `json:"pkg"`
+	Name       string         `json:"name"`
+	Kind       string         `json:"kind"`
+	Decl       string         `json:"decl"`
+	Type       string         `json:"type"`
+	Mutable    bool           `json:"mutable"`
+	MutableWhy string         `json:"mutableWhy,omitempty"`
+	Writes     []globalWrite  `json:"writes"`
+	Escapes    []globalEscape `json:"escapes"`
+
+	typeExpr    ast.Expr
+	elemMutable bool // map / slice whose element type is mutable
+}
+
+type capturedWrite struct {
+	Var       string `json:"var"`
+	How       string `json:"how"`
+	Decl      string `json:"decl"` // local | param | recv
+	UnderLock bool   `json:"underLock"`
+	Pos       string `json:"pos"`
+}
+
+type closureRec struct {
+	Pkg    string          `json:"pkg"`
+	Func   string          `json:"func"`
+	Escape string          `json:"escape"` // returned | stored
+	Pos    string          `json:"pos"`
+	Writes []capturedWrite `json:"writes"`
 }
 
 func typeText(e ast.Expr) string {
@@ -119,9 +177,123 @@ func baseIdent(e ast.Expr) (*ast.Ident, string) {
 	}
 }
 
+// one parsed package
+type gPkg struct {
+	name    string
+	fset    *token.FileSet
+	files   []*ast.File
+	names   []string
+	vars    map[string]*globalVar
+	specs   map[*ast.ValueSpec]bool
+	order   []string
+	types   map[string]*ast.TypeSpec
+	results map[string]ast.Expr // func name -> first result type
+	// type name -> methods with pointer receiver that write a field/element of the receiver
+	mutators map[string][]string
+}
+
+const storageImportPrefix = "github.com/openziti/storage/"
+
+func (p *gPkg) pos(fi int, pos token.Pos) string {
+	return fmt.Sprintf("%s/%s:%d", p.name, p.names[fi], p.fset.Position(pos).Line)
+}
+
+// typeOfValue: the type expression of an initialiser, as far as syntax tells
+func (p *gPkg) typeOfValue(val ast.Expr) ast.Expr {
+	switch x := val.(type) {
+	case *ast.CompositeLit:
+		return x.Type
+	case *ast.UnaryExpr:
+		if x.Op == token.AND {
+			if t := p.typeOfValue(x.X); t != nil {
+				return &ast.StarExpr{X: t}
+			}
+		}
+	case *ast.ParenExpr:
+		return p.typeOfValue(x.X)
+	case *ast.CallExpr:
+		if id, ok := x.Fun.(*ast.Ident); ok {
+			if (id.Name == "make" || id.Name == "new") && len(x.Args) > 0 {
+				if id.Name == "new" {
+					return &ast.StarExpr{X: x.Args[0]}
+				}
+				return x.Args[0]
+			}
+			if r, ok := p.results[id.Name]; ok {
+				return r
+			}
+		}
+	}
+	return nil
+}
+
+// mutableType: can a holder of a value of this type change state that other holders see?
+func (p *gPkg) mutableType(t ast.Expr, depth int) (bool, string) {
+	if t == nil || depth > 3 {
+		return false, ""
+	}
+	switch x := t.(type) {
+	case *ast.MapType:
+		return true, "map"
+	case *ast.ArrayType:
+		if x.Len == nil {
+			return true, "slice"
+		}
+		return p.mutableType(x.Elt, depth+1)
+	case *ast.ChanType:
+		return false, ""
+	case *ast.ParenExpr:
+		return p.mutableType(x.X, depth)
+	case *ast.IndexExpr: // generic instantiation
+		return p.mutableType(x.X, depth)
+	case *ast.SelectorExpr:
+		// a container of another module holding arbitrary values (sync.Map, cmap.ConcurrentMap, lru.Cache …)
+		if tt := typeText(x); strings.Contains(x.Sel.Name, "Map") || strings.Contains(x.Sel.Name, "Cache") {
+			return true, tt + " (container)"
+		}
+		return false, ""
+	case *ast.StarExpr:
+		if id, ok := x.X.(*ast.Ident); ok {
+			if ms := p.mutators[id.Name]; len(ms) > 0 {
+				return true, "*" + id.Name + " has pointer-receiver mutators " + strings.Join(ms, ",")
+			}
+		}
+		return p.mutableType(x.X, depth+1)
+	case *ast.Ident:
+		ts, ok := p.types[x.Name]
+		if !ok {
+			return false, ""
+		}
+		if st, ok := ts.Type.(*ast.StructType); ok {
+			if st.Fields != nil {
+				for _, f := range st.Fields.List {
+					if m, why := p.mutableType(f.Type, depth+1); m {
+						fn := "embedded"
+						if len(f.Names) > 0 {
+							fn = f.Names[0].Name
+						}
+						return true, x.Name + "." + fn + ": " + why
+					}
+				}
+			}
+			return false, ""
+		}
+		if _, ok := ts.Type.(*ast.InterfaceType); ok {
+			return false, ""
+		}
+		return p.mutableType(ts.Type, depth+1)
+	}
+	return false, ""
+}
+
 func extractGlobals(repo, gen, facts string) {
 	var all []globalVar
+	var closures []closureRec
 	var notes []string
+	pkgs := map[string]*gPkg{}
+	var pkgOrder []*gPkg
+
+	// ---------------------------------------------------------------- phase 1: declarations
 	for _, pkg := range []string{"zitiql", "ast", "boltz", "objectz"} {
 		dir := filepath.Join(repo, pkg)
 		entries, err := os.ReadDir(dir)
@@ -129,26 +301,103 @@ func extractGlobals(repo, gen, facts string) {
 			notes = append(notes, "cannot read "+dir)
 			continue
 		}
-		fset := token.NewFileSet()
-		var files []*ast.File
-		var names []string
+		p := &gPkg{name: pkg, fset: token.NewFileSet(), vars: map[string]*globalVar{}, specs: map[*ast.ValueSpec]bool{},
+			types: map[string]*ast.TypeSpec{}, results: map[string]ast.Expr{}, mutators: map[string][]string{}}
 		for _, e := range entries {
 			n := e.Name()
 			if e.IsDir() || !strings.HasSuffix(n, ".go") || strings.HasSuffix(n, "_test.go") {
 				continue
 			}
-			f, err := parser.ParseFile(fset, filepath.Join(dir, n), nil, 0)
+			f, err := parser.ParseFile(p.fset, filepath.Join(dir, n), nil, 0)
 			if err != nil {
 				notes = append(notes, "parse error "+pkg+"/"+n)
 				continue
 			}
-			files = append(files, f)
-			names = append(names, n)
+			p.files = append(p.files, f)
+			p.names = append(p.names, n)
 		}
-		vars := map[string]*globalVar{}
-		specs := map[*ast.ValueSpec]bool{}
-		var order []string
-		for fi, f := range files {
+		var ctors []*ast.FuncDecl
+		for _, f := range p.files {
+			for _, d := range f.Decls {
+				switch x := d.(type) {
+				case *ast.GenDecl:
+					if x.Tok == token.TYPE {
+						for _, sp := range x.Specs {
+							ts := sp.(*ast.TypeSpec)
+							p.types[ts.Name.Name] = ts
+						}
+					}
+				case *ast.FuncDecl:
+					if x.Recv == nil && x.Type.Results != nil && len(x.Type.Results.List) > 0 {
+						p.results[x.Name.Name] = x.Type.Results.List[0].Type
+						ctors = append(ctors, x)
+					}
+					if x.Recv != nil && len(x.Recv.List) == 1 && x.Body != nil && len(x.Recv.List[0].Names) == 1 {
+						rt := x.Recv.List[0].Type
+						star, isPtr := rt.(*ast.StarExpr)
+						if !isPtr {
+							continue
+						}
+						tn := typeText(star.X)
+						recv := x.Recv.List[0].Names[0]
+						writes := false
+						ast.Inspect(x.Body, func(n ast.Node) bool {
+							check := func(l ast.Expr) {
+								id, how := baseIdent(l)
+								if id != nil && id.Obj != nil && id.Obj == recv.Obj && how != "assign" {
+									writes = true
+								}
+							}
+							switch y := n.(type) {
+							case *ast.AssignStmt:
+								if y.Tok != token.DEFINE {
+									for _, l := range y.Lhs {
+										check(l)
+									}
+								}
+							case *ast.IncDecStmt:
+								check(y.X)
+							}
+							return true
+						})
+						if writes {
+							p.mutators[tn] = append(p.mutators[tn], x.Name.Name)
+						}
+					}
+				}
+			}
+		}
+		for _, ms := range p.mutators {
+			sort.Strings(ms)
+		}
+		// a constructor declared to return an interface of the package: what its first `return` builds
+		for _, x := range ctors {
+			id, ok := x.Type.Results.List[0].Type.(*ast.Ident)
+			if !ok || x.Body == nil {
+				continue
+			}
+			ts, ok := p.types[id.Name]
+			if !ok {
+				continue
+			}
+			if _, isIface := ts.Type.(*ast.InterfaceType); !isIface {
+				continue
+			}
+			var built ast.Expr
+			ast.Inspect(x.Body, func(n ast.Node) bool {
+				if r, ok := n.(*ast.ReturnStmt); ok && built == nil && len(r.Results) > 0 {
+					switch r.Results[0].(type) {
+					case *ast.CompositeLit, *ast.UnaryExpr:
+						built = p.typeOfValue(r.Results[0])
+					}
+				}
+				return true
+			})
+			if built != nil {
+				p.results[x.Name.Name] = built
+			}
+		}
+		for fi, f := range p.files {
 			for _, d := range f.Decls {
 				gd, ok := d.(*ast.GenDecl)
 				if !ok || gd.Tok != token.VAR {
@@ -156,7 +405,7 @@ func extractGlobals(repo, gen, facts string) {
 				}
 				for _, sp := range gd.Specs {
 					vs := sp.(*ast.ValueSpec)
-					specs[vs] = true
+					p.specs[vs] = true
 					for i, n := range vs.Names {
 						if n.Name == "_" {
 							continue
@@ -165,30 +414,116 @@ func extractGlobals(repo, gen, facts string) {
 						if i < len(vs.Values) {
 							val = vs.Values[i]
 						}
-						vars[n.Name] = &globalVar{Pkg: pkg, Name: n.Name, Kind: globalKind(vs.Type, val),
-							Decl: fmt.Sprintf("%s/%s:%d", pkg, names[fi], fset.Position(n.Pos()).Line)}
-						order = append(order, n.Name)
+						te := vs.Type
+						if vt := p.typeOfValue(val); vt != nil {
+							// an interface-typed declaration holds what the initialiser builds
+							if te == nil {
+								te = vt
+							} else if id, ok := te.(*ast.Ident); ok {
+								if ts, ok := p.types[id.Name]; ok {
+									if _, isIface := ts.Type.(*ast.InterfaceType); isIface {
+										te = vt
+									}
+								}
+							}
+						}
+						tt := typeText(te)
+						if te == nil && val != nil {
+							tt = typeText(val) // opaque: built by another module's function
+						}
+						v := &globalVar{Pkg: pkg, Name: n.Name, Kind: globalKind(vs.Type, val), Decl: p.pos(fi, n.Pos()),
+							Type: tt, typeExpr: te, Writes: []globalWrite{}, Escapes: []globalEscape{}}
+						v.Mutable, v.MutableWhy = p.mutableType(te, 0)
+						switch ct := te.(type) {
+						case *ast.MapType:
+							v.elemMutable, _ = p.mutableType(ct.Value, 1)
+						case *ast.ArrayType:
+							v.elemMutable, _ = p.mutableType(ct.Elt, 1)
+						}
+						p.vars[n.Name] = v
+						p.order = append(p.order, n.Name)
 					}
 				}
 			}
 		}
-		isPkgVar := func(id *ast.Ident) *globalVar {
-			if id == nil {
+		pkgs[pkg] = p
+		pkgOrder = append(pkgOrder, p)
+	}
+
+	// ---------------------------------------------------------------- phase 2: function bodies
+	for _, p := range pkgOrder {
+		for fi, f := range p.files {
+			// local import names of the other storage packages
+			imports := map[string]*gPkg{}
+			for _, im := range f.Imports {
+				path, err := strconv.Unquote(im.Path.Value)
+				if err != nil || !strings.HasPrefix(path, storageImportPrefix) {
+					continue
+				}
+				q, ok := pkgs[strings.TrimPrefix(path, storageImportPrefix)]
+				if !ok {
+					continue
+				}
+				name := q.name
+				if im.Name != nil {
+					name = im.Name.Name
+				}
+				imports[name] = q
+			}
+			isPkgVar := func(id *ast.Ident) *globalVar {
+				if id == nil {
+					return nil
+				}
+				v, ok := p.vars[id.Name]
+				if !ok {
+					return nil
+				}
+				if id.Obj == nil {
+					return v
+				}
+				if vs, ok := id.Obj.Decl.(*ast.ValueSpec); ok && p.specs[vs] {
+					return v
+				}
 				return nil
 			}
-			v, ok := vars[id.Name]
-			if !ok {
+			// pkg.X of another storage package
+			foreignVar := func(e ast.Expr) *globalVar {
+				se, ok := e.(*ast.SelectorExpr)
+				if !ok {
+					return nil
+				}
+				id, ok := se.X.(*ast.Ident)
+				if !ok || id.Obj != nil {
+					return nil
+				}
+				if q, ok := imports[id.Name]; ok {
+					return q.vars[se.Sel.Name]
+				}
 				return nil
 			}
-			if id.Obj == nil {
-				return v
+			// the package variable an lvalue / operand is rooted in, and how it is reached
+			rootVar := func(e ast.Expr) (*globalVar, string) {
+				how := "assign"
+				for {
+					if v := foreignVar(e); v != nil {
+						return v, how
+					}
+					switch x := e.(type) {
+					case *ast.Ident:
+						return isPkgVar(x), how
+					case *ast.IndexExpr:
+						e, how = x.X, "elem"
+					case *ast.SelectorExpr:
+						e, how = x.X, "field"
+					case *ast.StarExpr:
+						e, how = x.X, "elem"
+					case *ast.ParenExpr:
+						e = x.X
+					default:
+						return nil, how
+					}
+				}
 			}
-			if vs, ok := id.Obj.Decl.(*ast.ValueSpec); ok && specs[vs] {
-				return v
-			}
-			return nil
-		}
-		for fi, f := range files {
 			for _, d := range f.Decls {
 				fd, ok := d.(*ast.FuncDecl)
 				if !ok || fd.Body == nil {
@@ -208,15 +543,17 @@ func extractGlobals(repo, gen, facts string) {
 					}
 					return true
 				})
-				record := func(v *globalVar, how string, pos token.Pos) {
-					under := false
+				underLock := func(pos token.Pos, from, to token.Pos) bool {
 					for _, lp := range lockPos {
-						if lp < pos {
-							under = true
+						if lp < pos && lp >= from && lp < to {
+							return true
 						}
 					}
-					v.Writes = append(v.Writes, globalWrite{Func: fname, How: how, InInit: inInit, UnderLock: under,
-						Pos: fmt.Sprintf("%s/%s:%d", pkg, names[fi], fset.Position(pos).Line)})
+					return false
+				}
+				record := func(v *globalVar, how string, pos token.Pos) {
+					v.Writes = append(v.Writes, globalWrite{Func: fname, How: how, InInit: inInit,
+						UnderLock: underLock(pos, fd.Pos(), fd.End()), Pos: p.pos(fi, pos)})
 				}
 				ast.Inspect(fd.Body, func(n ast.Node) bool {
 					switch x := n.(type) {
@@ -225,27 +562,23 @@ func extractGlobals(repo, gen, facts string) {
 							return true
 						}
 						for _, l := range x.Lhs {
-							id, how := baseIdent(l)
-							if v := isPkgVar(id); v != nil {
+							if v, how := rootVar(l); v != nil {
 								record(v, how, l.Pos())
 							}
 						}
 					case *ast.IncDecStmt:
-						id, how := baseIdent(x.X)
-						if v := isPkgVar(id); v != nil {
+						if v, how := rootVar(x.X); v != nil {
 							record(v, how, x.Pos())
 						}
 					case *ast.UnaryExpr:
 						if x.Op == token.AND {
-							id, _ := baseIdent(x.X)
-							if v := isPkgVar(id); v != nil {
+							if v, _ := rootVar(x.X); v != nil {
 								record(v, "addr", x.Pos())
 							}
 						}
 					case *ast.CallExpr:
 						if fid, ok := x.Fun.(*ast.Ident); ok && fid.Name == "delete" && len(x.Args) == 2 {
-							id, _ := baseIdent(x.Args[0])
-							if v := isPkgVar(id); v != nil {
+							if v, _ := rootVar(x.Args[0]); v != nil {
 								record(v, "elem", x.Pos())
 							}
 						}
@@ -255,8 +588,7 @@ func extractGlobals(repo, gen, facts string) {
 								if l == nil {
 									continue
 								}
-								id, how := baseIdent(l)
-								if v := isPkgVar(id); v != nil {
+								if v, how := rootVar(l); v != nil {
 									record(v, how, l.Pos())
 								}
 							}
@@ -264,23 +596,279 @@ func extractGlobals(repo, gen, facts string) {
 					}
 					return true
 				})
+
+				// ---- escapes of package variables, and escaping function literals
+				aliasVar := map[*ast.Object]*globalVar{} // local -> the package variable it aliases / contains
+				aliasLit := map[*ast.Object]*ast.FuncLit{}
+				var carries func(e ast.Expr) (*globalVar, *ast.FuncLit)
+				carries = func(e ast.Expr) (*globalVar, *ast.FuncLit) {
+					if e == nil {
+						return nil, nil
+					}
+					if v := foreignVar(e); v != nil {
+						return v, nil
+					}
+					switch x := e.(type) {
+					case *ast.Ident:
+						if v := isPkgVar(x); v != nil {
+							return v, nil
+						}
+						if x.Obj != nil {
+							return aliasVar[x.Obj], aliasLit[x.Obj]
+						}
+					case *ast.FuncLit:
+						return nil, x
+					case *ast.ParenExpr:
+						return carries(x.X)
+					case *ast.UnaryExpr:
+						if x.Op == token.AND {
+							return carries(x.X)
+						}
+					case *ast.SliceExpr:
+						return carries(x.X)
+					case *ast.TypeAssertExpr:
+						return carries(x.X)
+					case *ast.KeyValueExpr:
+						return carries(x.Value)
+					case *ast.CompositeLit:
+						for _, el := range x.Elts {
+							if v, l := carries(el); v != nil || l != nil {
+								return v, l
+							}
+						}
+					case *ast.SelectorExpr:
+						// a field of a local that aliases / was taken out of a package variable
+						if id, ok := x.X.(*ast.Ident); ok && id.Obj != nil && isPkgVar(id) == nil {
+							return aliasVar[id.Obj], nil
+						}
+					case *ast.IndexExpr:
+						// an element of a package-level map / slice whose element type is itself mutable
+						if v, _ := rootVar(x.X); v != nil && v.elemMutable {
+							return v, nil
+						}
+					case *ast.CallExpr:
+						// a value taken out of a package-level container (cache.Load(k), cache.Get(k))
+						if se, ok := x.Fun.(*ast.SelectorExpr); ok {
+							switch se.Sel.Name {
+							case "Load", "LoadOrStore", "LoadAndDelete", "Swap", "Get", "GetOrCompute", "Peek":
+								if v, _ := rootVar(se.X); v != nil && strings.HasSuffix(v.MutableWhy, "(container)") {
+									return v, nil
+								}
+							}
+						}
+						if id, ok := x.Fun.(*ast.Ident); ok && id.Name == "append" {
+							for _, a := range x.Args {
+								if v, l := carries(a); v != nil || l != nil {
+									return v, l
+								}
+							}
+						}
+					}
+					return nil, nil
+				}
+				isLocal := func(e ast.Expr) *ast.Object {
+					id, ok := e.(*ast.Ident)
+					if !ok || id.Obj == nil || id.Name == "_" || isPkgVar(id) != nil {
+						return nil
+					}
+					return id.Obj
+				}
+				// aliases, to a fixed point (flow-insensitive)
+				for round := 0; round < 4; round++ {
+					changed := false
+					ast.Inspect(fd.Body, func(n ast.Node) bool {
+						bind := func(l ast.Expr, r ast.Expr) {
+							obj := isLocal(l)
+							if obj == nil {
+								return
+							}
+							v, lit := carries(r)
+							if v != nil && aliasVar[obj] == nil {
+								aliasVar[obj] = v
+								changed = true
+							}
+							if lit != nil && aliasLit[obj] == nil {
+								aliasLit[obj] = lit
+								changed = true
+							}
+						}
+						switch x := n.(type) {
+						case *ast.AssignStmt:
+							if len(x.Lhs) == len(x.Rhs) {
+								for i := range x.Lhs {
+									bind(x.Lhs[i], x.Rhs[i])
+								}
+							} else if len(x.Rhs) == 1 && len(x.Lhs) == 2 { // v, ok := m[k] / c.Load(k) / y.(T)
+								bind(x.Lhs[0], x.Rhs[0])
+							}
+						case *ast.ValueSpec:
+							if len(x.Names) == len(x.Values) {
+								for i := range x.Names {
+									bind(x.Names[i], x.Values[i])
+								}
+							}
+						}
+						return true
+					})
+					if !changed {
+						break
+					}
+				}
+				escLit := map[*ast.FuncLit]string{}
+				var litOrder []*ast.FuncLit
+				var escapeVar func(v *globalVar, how string, pos token.Pos)
+				escape := func(e ast.Expr, how string, pos token.Pos) {
+					v, lit := carries(e)
+					escapeVar(v, how, pos)
+					if lit != nil {
+						if _, ok := escLit[lit]; !ok {
+							escLit[lit] = how
+							litOrder = append(litOrder, lit)
+						}
+					}
+				}
+				escapeVar = func(v *globalVar, how string, pos token.Pos) {
+					if v != nil {
+						dup := false
+						for _, ex := range v.Escapes {
+							if ex.Func == fname && ex.How == how && ex.Pos == p.pos(fi, pos) {
+								dup = true
+							}
+						}
+						if !dup {
+							v.Escapes = append(v.Escapes, globalEscape{Func: fname, How: how, Pos: p.pos(fi, pos)})
+						}
+					}
+				}
+				ast.Inspect(fd.Body, func(n ast.Node) bool {
+					switch x := n.(type) {
+					case *ast.ReturnStmt:
+						for _, r := range x.Results {
+							escape(r, "returned", r.Pos())
+						}
+					case *ast.AssignStmt:
+						if len(x.Lhs) == len(x.Rhs) {
+							for i, l := range x.Lhs {
+								switch l.(type) {
+								case *ast.SelectorExpr, *ast.IndexExpr, *ast.StarExpr:
+									escape(x.Rhs[i], "stored", x.Rhs[i].Pos())
+								}
+							}
+						}
+					case *ast.CallExpr:
+						// handed to another function (which may keep or change it): only package variables, not literals
+						if id, ok := x.Fun.(*ast.Ident); ok {
+							switch id.Name {
+							case "len", "cap", "delete", "append", "copy", "clear", "print", "println", "panic", "min", "max", "new", "make",
+								"close", "recover", "real", "imag", "complex",
+								// conversions to predeclared types copy (string(x)) or do not alias
+								"string", "bool", "byte", "rune", "int", "int8", "int16", "int32", "int64", "uint", "uint8", "uint16",
+								"uint32", "uint64", "uintptr", "float32", "float64", "complex64", "complex128":
+								return true
+							}
+						}
+						for _, a := range x.Args {
+							if u, ok := a.(*ast.UnaryExpr); ok && u.Op == token.AND {
+								continue // &x is in the writes table already (how = addr)
+							}
+							if v, _ := carries(a); v != nil {
+								escapeVar(v, "passed", a.Pos())
+							}
+						}
+					case *ast.CompositeLit:
+						// a function literal inside a composite literal outlives the call if the literal does; a
+						// composite literal that is only a local temporary is rare enough to count it
+						for _, el := range x.Elts {
+							val := el
+							if kv, ok := el.(*ast.KeyValueExpr); ok {
+								val = kv.Value
+							}
+							if lit, ok := val.(*ast.FuncLit); ok {
+								if _, ok := escLit[lit]; !ok {
+									escLit[lit] = "stored"
+									litOrder = append(litOrder, lit)
+								}
+							}
+						}
+					}
+					return true
+				})
+				sort.Slice(litOrder, func(i, j int) bool { return litOrder[i].Pos() < litOrder[j].Pos() })
+				for _, lit := range litOrder {
+					rec := closureRec{Pkg: p.name, Func: fname, Escape: escLit[lit], Pos: p.pos(fi, lit.Pos()), Writes: []capturedWrite{}}
+					captured := func(e ast.Expr, forceHow string, pos token.Pos) {
+						id, how := baseIdent(e)
+						if id == nil || id.Obj == nil || id.Name == "_" {
+							return
+						}
+						dp := id.Obj.Pos()
+						if dp < fd.Pos() || dp >= fd.End() || (dp >= lit.Pos() && dp < lit.End()) {
+							return
+						}
+						if forceHow != "" {
+							how = forceHow
+						}
+						decl := "local"
+						if fd.Recv != nil && dp >= fd.Recv.Pos() && dp < fd.Recv.End() {
+							decl = "recv"
+						} else if dp >= fd.Type.Pos() && dp < fd.Type.End() {
+							decl = "param"
+						}
+						rec.Writes = append(rec.Writes, capturedWrite{Var: id.Name, How: how, Decl: decl,
+							UnderLock: underLock(pos, lit.Pos(), lit.End()), Pos: p.pos(fi, pos)})
+					}
+					ast.Inspect(lit.Body, func(n ast.Node) bool {
+						switch x := n.(type) {
+						case *ast.AssignStmt:
+							if x.Tok == token.DEFINE {
+								return true
+							}
+							for _, l := range x.Lhs {
+								captured(l, "", l.Pos())
+							}
+						case *ast.IncDecStmt:
+							captured(x.X, "", x.Pos())
+						case *ast.UnaryExpr:
+							if x.Op == token.AND {
+								captured(x.X, "addr", x.Pos())
+							}
+						case *ast.CallExpr:
+							if fid, ok := x.Fun.(*ast.Ident); ok && fid.Name == "delete" && len(x.Args) == 2 {
+								captured(x.Args[0], "elem", x.Pos())
+							}
+						case *ast.RangeStmt:
+							if x.Tok == token.ASSIGN {
+								for _, l := range []ast.Expr{x.Key, x.Value} {
+									if l != nil {
+										captured(l, "", l.Pos())
+									}
+								}
+							}
+						}
+						return true
+					})
+					closures = append(closures, rec)
+				}
 			}
 		}
-		sort.Strings(order)
-		for _, n := range order {
-			all = append(all, *vars[n])
+	}
+	for _, p := range pkgOrder {
+		sort.Strings(p.order)
+		for _, n := range p.order {
+			all = append(all, *p.vars[n])
 		}
 	}
 	type fact struct {
-		Globals []globalVar `json:"globals"`
-		Notes   []string    `json:"notes,omitempty"`
+		Globals  []globalVar  `json:"globals"`
+		Closures []closureRec `json:"closures"`
+		Notes    []string     `json:"notes,omitempty"`
 	}
-	js, _ := json.MarshalIndent(fact{all, notes}, "", " ")
+	js, _ := json.MarshalIndent(fact{all, closures, notes}, "", " ")
 	writeIfChanged(filepath.Join(facts, "globals.json"), string(js)+"\n")
 
 	var b strings.Builder
 	b.WriteString("import StorageModel.C18.Globals\n")
-	b.WriteString("/- GENERATED by /verif/extract from the package-level vars of zitiql, ast, boltz, objectz — do not edit. -/\n")
+	b.WriteString("/- GENERATED by /verif/extract from the package-level vars and the escaping function literals of zitiql, ast, boltz, objectz — do not edit. -/\n")
 	b.WriteString("namespace StorageModel.Generated\nopen StorageModel.C18\n")
 	b.WriteString("def globals : List GlobalVar := [\n")
 	for i, v := range all {
@@ -293,6 +881,32 @@ func extractGlobals(repo, gen, facts string) {
 				b.WriteString(", ")
 			}
 			fmt.Fprintf(&b, "{ func := %q, how := .%s, inInit := %v, underLock := %v }", w.Func, w.How, w.InInit, w.UnderLock)
+		}
+		fmt.Fprintf(&b, "], typ := %q, mutable := %v, escapes := [", v.Type, v.Mutable)
+		for j, e := range v.Escapes {
+			if j > 0 {
+				b.WriteString(", ")
+			}
+			fmt.Fprintf(&b, "{ func := %q, how := .%s }", e.Func, e.How)
+		}
+		b.WriteString("] }")
+	}
+	b.WriteString("]\n\n")
+	b.WriteString("def closures : List Closure := [\n")
+	for i, c := range closures {
+		if i > 0 {
+			b.WriteString(",\n")
+		}
+		fmt.Fprintf(&b, "  { pkg := %q, func := %q, escape := .%s, writes := [", c.Pkg, c.Func, c.Escape)
+		for j, w := range c.Writes {
+			if j > 0 {
+				b.WriteString(", ")
+			}
+			decl := w.Decl
+			if decl == "local" {
+				decl = "loc" // `local` is a Lean keyword
+			}
+			fmt.Fprintf(&b, "{ name := %q, how := .%s, decl := .%s, underLock := %v }", w.Var, w.How, decl, w.UnderLock)
 		}
 		b.WriteString("] }")
 	}
